@@ -36,8 +36,9 @@ class Enumerator:
         return r.to(kw.get("dtype", torch.int64)).expand(*size).contiguous()
 
 
-def events_for(E: int, M: int, s_arg: int, pats: np.ndarray) -> Tuple[List[List[int]], int]:
-    """s_arg = 0 means "default" (all discarded bits)."""
+def events_for(E: int, M: int, s_arg: int, pats: np.ndarray, path: str = "quantise") -> Tuple[List[List[int]], int]:
+    """s_arg = 0 means "default" (all discarded bits).  path: the entry point -- quantise itself, or the straight-through
+    wrappers quantise_fwd (forward value) / quantise_bwd (gradient), which format simulation uses."""
     from unit_scaling.formats import FPFormat
 
     f = FPFormat(E, M, rounding="stochastic", srbits=s_arg)
@@ -47,7 +48,14 @@ def events_for(E: int, M: int, s_arg: int, pats: np.ndarray) -> Tuple[List[List[
     x = x1[:, None].expand(len(pats), nd).contiguous()
     en = Enumerator(s)
     with mock.patch("torch.randint", en):
-        q = f.quantise(x)
+        if path == "quantise":
+            q = f.quantise(x)
+        elif path == "fwd":
+            q = f.quantise_fwd(x.clone().requires_grad_()).detach()
+        else:
+            t = torch.zeros_like(x, requires_grad=True)
+            f.quantise_bwd(t).backward(x)
+            q = t.grad
     ev: List[List[int]] = []
     api_ok = (
         len(en.calls) == 1
@@ -111,6 +119,7 @@ def run(rep: Report, tier: str) -> None:
     l2(rep, tier, "stoch", hosts_thorough=["4_6", "4_8", "3_8"])
     quick = tier == "quick"
     all_events: List[List[int]] = []
+    all_paths: List[str] = []
     evals = 0
     formats = [(E, M) for E in range(2, 8) for M in range(0, 11)]
     for (E, M) in formats:
@@ -125,18 +134,25 @@ def run(rep: Report, tier: str) -> None:
         cases = [(s, s) for s in s_list]
         if D <= 20 and (not quick or D <= 16):
             cases.append((0, D))  # default: all discarded bits
-        for (s_arg, s) in cases:
+        # one process, one (E, M): the srbits values follow each other (coarse to fine, default last) THROUGH THE SAME ENTRY POINT,
+        # so that anything remembered per format-without-srbits shows up
+        paths = [["quantise", "fwd", "bwd"][(E + M) % 3]] if quick else ["quantise", "fwd", "bwd"]
+        for path in paths:
+          for (s_arg, s) in cases:
             pats = quant.inputs_for_format(E, M, rng, n_vals, 0 if quick else 1)
             pats = pats[pats < quant.INF]  # finite range
             maxn = max(8, budget >> s)
             if len(pats) > maxn:
                 sel = np.array(sorted(rng.sample(range(len(pats)), maxn)))
                 pats = pats[sel]
-            ev, n = events_for(E, M, s_arg, pats)
+            ev, n = events_for(E, M, s_arg, pats, path)
             all_events += ev
+            all_paths += [path] * len(ev)
             evals += n
-            rep.case(("fmt", E, M, s))
-    all_events += independence_probe(rep)
+            rep.case(("fmt", E, M, s, path))
+    ip = independence_probe(rep)
+    all_events += ip
+    all_paths += ["quantise"] * len(ip)
     rep.evaluations = evals
     rep.rule = (
         "per (format, srbits): inputs as C13 restricted to finite values; every one of the 2^srbits draws is executed "
@@ -150,15 +166,15 @@ def run(rep: Report, tier: str) -> None:
         r = common.validate_traces("Quantise_Trace", "Quantise_Trace.cfg", batch, timeout=1800, tag="qtr14")
         rep.add_trace_result(r)
         for (l, clause) in r["fails"]:
-            fails.append((clause, batch[l - 1]))
+            fails.append((clause, batch[l - 1], all_paths[i + l - 1]))
     rep.nontrivial = {tuple(e) for e in all_events}  # type: ignore
     rep.extra["events_validated_by_tlc"] = len(all_events)
     for e in all_events[:: max(1, len(all_events) // 5)][:5]:
         rep.sample({"event[E,M,kind,s,xs,x,rstar,first,qs,last]": e})
-    for clause, e in fails:
+    for clause, e, path in fails:
         rep.violation(
-            f"stochastic quantise event rejected: clause={clause} E={e[0]} M={e[1]} kind={e[2]} srbits={e[3]} x=0x{e[5]:08x} a={e[6]} b=0x{e[7]:08x} c=0x{e[9]:08x}",
-            {"event": e, "clause": clause},
+            f"stochastic quantise event rejected (entry point {path}): clause={clause} E={e[0]} M={e[1]} kind={e[2]} srbits={e[3]} x=0x{e[5]:08x} a={e[6]} b=0x{e[7]:08x} c=0x{e[9]:08x}",
+            {"event": e, "clause": clause, "path": path},
             key=f"{clause}:E{e[0]}M{e[1]}:s{e[3]}",
         )
     rep.assumptions += [
@@ -172,7 +188,11 @@ def replay(rep: Report, path: str) -> None:
     e = d["case"]["event"]
     E, M, s = e[0], e[1], e[3]
     if e[2] in (2, 4, 1):
-        ev, n = events_for(E, M, s if s != 23 - M else 0, np.array([e[5]], dtype=np.int64))
+        path = d["case"].get("path", "quantise")
+        if path != "quantise":     # the srbits history of this format through the same entry point comes first
+            for s0 in range(1, s):
+                events_for(E, M, s0, np.array([e[5]], dtype=np.int64), path)
+        ev, n = events_for(E, M, s if s != 23 - M else 0, np.array([e[5]], dtype=np.int64), path)
     else:
         ev = independence_probe(rep)
     r = common.validate_traces("Quantise_Trace", "Quantise_Trace.cfg", ev, tag="qrp14")
